@@ -7,6 +7,7 @@ import (
 	"encoding/hex"
 	"encoding/json"
 	"fmt"
+	"github.com/volatiletech/authboss/v3"
 	"net/url"
 	"os"
 	"os/exec"
@@ -138,6 +139,8 @@ func c20Scripts() []c20Script {
 			c.do(flows.Login(c.s, c.browser, c.pid, P3, false))
 		}},
 		{"login-rm-restart-open", func(c *c20Client) {
+			// turned away first: the refusal redirect carries this client's own return target
+			c.do(world.Req{Method: "GET", Path: "/app/prot?from=" + c.browser, ForceForm: true})
 			c.do(flows.Login(c.s, c.browser, c.pid, P1, true))
 			func() {
 				if c.mu != nil {
@@ -197,7 +200,7 @@ func c20Scripts() []c20Script {
 
 func c20Config(smtp bool) world.Config {
 	return world.Config{Modules: []string{"auth", "otp", "remember", "register", "confirm", "recover", "oauth2", "logout", "totp2fa", "recovery"},
-		EmailAuthRequired: true, MailGoroutine: true, SMTPMailer: smtp, LogMailer: !smtp, RecoverLoginAfter: false, ModuleList: true, PerClientData: true}
+		EmailAuthRequired: true, MailGoroutine: true, SMTPMailer: smtp, LogMailer: !smtp, RecoverLoginAfter: false, ModuleList: true, PerClientData: true, ProtFail: authboss.RespondRedirect}
 }
 
 // c20Fixture builds a fresh instance and world for the given scripts.
